@@ -22,6 +22,12 @@ pub fn w_rows() -> Vec<Vec<Val>> {
     vec![vec![Val::Int(1), Val::Text("x".into())], vec![Val::Int(3), Val::Text("y".into())], vec![Val::Int(9), Val::Null]]
 }
 
+/// ORDER BY population: NULLs and duplicates in leading keys, insertion order unrelated to any key order
+pub fn o_rows() -> Vec<Vec<Val>> {
+    let r = |a: Option<i128>, b: Option<i128>, c: Option<&str>| vec![a.map(Val::Int).unwrap_or(Val::Null), b.map(Val::Int).unwrap_or(Val::Null), c.map(|x| Val::Text(x.into())).unwrap_or(Val::Null)];
+    vec![r(None, Some(30), Some("x")), r(None, Some(10), Some("y")), r(Some(1), Some(5), Some("z")), r(None, Some(20), None), r(Some(1), Some(3), None), r(Some(2), None, Some("w")), r(Some(2), None, Some("a")), r(Some(1), Some(5), Some("b"))]
+}
+
 fn setup(db: &mut Db) -> Result<(), String> {
     let mut run = |sql: String| -> Result<(), String> {
         let o = db.exec(&sql);
@@ -30,6 +36,13 @@ fn setup(db: &mut Db) -> Result<(), String> {
     run("CREATE TABLE t (k INT, v INT, s TEXT)".into())?;
     run("CREATE TABLE u (k INT, w INT)".into())?;
     run("CREATE TABLE w (k INT, z TEXT)".into())?;
+    run("CREATE TABLE o (a INT, b INT, c TEXT)".into())?;
+    {
+        // inserted one by one in this (unsorted) order: several NULLs and duplicates in every column
+        for r in o_rows() {
+            run(format!("INSERT INTO o VALUES ({})", r.iter().map(crate::model::lit).collect::<Vec<_>>().join(", ")))?;
+        }
+    }
     for (name, rows) in [("t", t_rows()), ("u", u_rows()), ("w", w_rows())] {
         let body = rows.iter().map(|r| format!("({})", r.iter().map(crate::model::lit).collect::<Vec<_>>().join(", "))).collect::<Vec<_>>().join(", ");
         run(format!("INSERT INTO {name} VALUES {body}"))?;
@@ -303,6 +316,53 @@ pub fn queries(group: &str) -> Vec<Query> {
                                 let e: Vec<Vec<Val>> = s2.iter().skip(off).take(lim).cloned().collect();
                                 q.push(Query { sql: format!("SELECT * FROM t ORDER BY {cn}{}, k{} LIMIT {lim} OFFSET {off}", if desc { " DESC" } else { "" }, if desc2 { " DESC" } else { "" }), expect: Ok(e), ordered: true, tie_groups: None, tags: vec!["order", "limit", "offset"] });
                             }
+                        }
+                    }
+                }
+            }
+            // ORDER BY two and three keys over `o` (every ordered choice of distinct columns, every asc/desc mix);
+            // rows that tie on all keys may come in any order, LIMIT/OFFSET only where the order is total
+            {
+                let orows = o_rows();
+                let ocols: [(&str, usize); 3] = [("a", 0), ("b", 1), ("c", 2)];
+                let mut keysets: Vec<Vec<(usize, bool)>> = vec![];
+                for x in 0..3 {
+                    for y in 0..3 {
+                        if x == y {
+                            continue;
+                        }
+                        for dx in [false, true] {
+                            for dy in [false, true] {
+                                keysets.push(vec![(x, dx), (y, dy)]);
+                                let z = 3 - x - y;
+                                for dz in [false, true] {
+                                    keysets.push(vec![(x, dx), (y, dy), (z, dz)]);
+                                }
+                            }
+                        }
+                    }
+                }
+                for ks in keysets {
+                    let cmp_rows = |a: &Vec<Val>, b: &Vec<Val>| ks.iter().fold(Ordering::Equal, |acc, (ci, d)| acc.then(sort_key_cmp(&a[*ci], &b[*ci], *d)));
+                    let mut sorted = orows.clone();
+                    sorted.sort_by(|a, b| cmp_rows(a, b));
+                    let mut groups = vec![];
+                    let mut i = 0;
+                    while i < sorted.len() {
+                        let mut j = i + 1;
+                        while j < sorted.len() && cmp_rows(&sorted[i], &sorted[j]) == Ordering::Equal {
+                            j += 1;
+                        }
+                        groups.push(j - i);
+                        i = j;
+                    }
+                    let total = groups.iter().all(|g| *g == 1);
+                    let by = ks.iter().map(|(ci, d)| format!("{}{}", ocols[*ci].0, if *d { " DESC" } else { "" })).collect::<Vec<_>>().join(", ");
+                    q.push(Query { sql: format!("SELECT * FROM o ORDER BY {by}"), expect: Ok(sorted.clone()), ordered: true, tie_groups: Some(groups), tags: vec!["order", "multi-key"] });
+                    if total {
+                        for (lim, off) in [(1usize, 0usize), (2, 1), (3, 3), (8, 0), (2, 6)] {
+                            let e: Vec<Vec<Val>> = sorted.iter().skip(off).take(lim).cloned().collect();
+                            q.push(Query { sql: format!("SELECT * FROM o ORDER BY {by} LIMIT {lim} OFFSET {off}"), expect: Ok(e), ordered: true, tie_groups: None, tags: vec!["order", "multi-key", "limit"] });
                         }
                     }
                 }
